@@ -1,7 +1,203 @@
 import KitModel.Go.Prelude
-/-! Driver for property C03: `kitdrv C03` reads op lines on stdin, one answer line per input line. -/
+import KitModel.CryptoGlue
+import KitModel.Crypto
+/-!
+Driver for property C03: `kitdrv C03` reads one op per line on stdin and answers one line per
+input line by running the executable model `Kit.CryptoGlue` instantiated with the Lean-native
+primitives of `Kit.Crypto` (AES, GCM, (X)ChaCha20-Poly1305, HMAC-SHA2).
+
+Ops (bytes in hex, empty = empty):
+  sym fn=EncryptSymmetric|Encrypt alg= kind= key= nonce= data= ad=          → ok ct= tag= x=
+  sym fn=DecryptSymmetric|Decrypt alg= kind= key= nonce= data= tag= ad=     → ok pt= x=
+  asym fn= alg= kind=                                                       → ok | err <class>
+  kw dir=wrap|unwrap|unwrapprefix key= data=                                → ok out= x=
+  pad dir=pad|unpad size= data=                                             → ok out=
+  cbchmac dir=seal|open ctor= key= nonce= data= ad=                         → ok out= x=
+Errors: `err <class>`; panics of the Go code: `panic <why>`.
+`x=` is a cross-check of the hand-written parts of the model (RFC 3394, CBC, CBC-HMAC) against
+the independently written `Kit.Crypto.kwWrap / cbcEncrypt / cbcHmacSeal`: `agree`, `differ`, `na`.
+-/
 namespace Driver.C03
+open Kit Kit.CryptoGlue
+
+def hashOfBits (bits : Nat) : Option Kit.Crypto.HashAlg :=
+  if bits = 256 then some .sha256 else if bits = 384 then some .sha384
+  else if bits = 512 then some .sha512 else none
+
+def optOut (o : Option Bytes) : Outcome Bytes :=
+  match o with
+  | some p => .ok p
+  | none => .err eAuth
+
+def realPrims : Prims where
+  aes key := { E := Kit.Crypto.aesEncryptBlock key, D := Kit.Crypto.aesDecryptBlock key }
+  gcm key := {
+    nonceSize := 12, overhead := 16
+    doSeal := fun n pt ad =>
+      if n.length ≠ 12 then .panic "crypto/cipher: incorrect nonce length given to GCM"
+      else .ok (Kit.Crypto.gcmSeal key n pt ad)
+    doOpen := fun n c ad =>
+      if n.length ≠ 12 then .panic "crypto/cipher: incorrect nonce length given to GCM"
+      else optOut (Kit.Crypto.gcmOpen key n c ad) }
+  chacha key := {
+    nonceSize := 12, overhead := 16
+    doSeal := fun n pt ad =>
+      if n.length ≠ 12 then .panic "chacha20poly1305: bad nonce length passed to Seal"
+      else .ok (Kit.Crypto.chacha20Poly1305Seal key n pt ad)
+    doOpen := fun n c ad =>
+      if n.length ≠ 12 then .panic "chacha20poly1305: bad nonce length passed to Open"
+      else optOut (Kit.Crypto.chacha20Poly1305Open key n c ad) }
+  xchacha key := {
+    nonceSize := 24, overhead := 16
+    doSeal := fun n pt ad =>
+      if n.length ≠ 24 then .panic "chacha20poly1305: bad nonce length passed to Seal"
+      else .ok (Kit.Crypto.xchacha20Poly1305Seal key n pt ad)
+    doOpen := fun n c ad =>
+      if n.length ≠ 24 then .panic "chacha20poly1305: bad nonce length passed to Open"
+      else optOut (Kit.Crypto.xchacha20Poly1305Open key n c ad) }
+  hmac bits key msg :=
+    match hashOfBits bits with
+    | some h => Kit.Crypto.hmac h key msg
+    | none => []
+
+def parseKind (s : String) : Option KeyKind :=
+  if s = "oct" then some .oct
+  else if s = "rsaPriv" then some .rsaPriv else if s = "rsaPub" then some .rsaPub
+  else if s = "ecP256Priv" then some (.ecPriv 256) else if s = "ecP256Pub" then some (.ecPub 256)
+  else if s = "ecP384Priv" then some (.ecPriv 384) else if s = "ecP384Pub" then some (.ecPub 384)
+  else if s = "ecP521Priv" then some (.ecPriv 521) else if s = "ecP521Pub" then some (.ecPub 521)
+  else if s = "ed25519Priv" then some .ed25519Priv else if s = "ed25519Pub" then some .ed25519Pub
+  else if s = "x25519Priv" then some .x25519Priv else if s = "x25519Pub" then some .x25519Pub
+  else none
+
+def clean (s : String) : String := s.map fun c => if c = ' ' ∨ c = '\n' then '_' else c
+
+def render {α} (o : Outcome α) (f : α → String) : String :=
+  match o with
+  | .ok a => "ok " ++ f a
+  | .err e => "err " ++ clean e
+  | .panic w => "panic " ++ clean w
+
+def hexOr (l : Line) (k : String) : Option Bytes :=
+  match l.get? k with
+  | none => some []
+  | some s => fromHex s
+
+def agree (b : Bool) : String := if b then "agree" else "differ"
+
+/-- Independent spec of what an encryption with valid sizes must produce (ct, tag), if the
+`Kit.Crypto` library has one for this name. -/
+def specEncrypt (alg : String) (key nonce pt ad : Bytes) : Option (Bytes × Bytes) :=
+  let cbc := ["A128CBC", "A192CBC", "A256CBC"]
+  let nopad := ["A128CBC-NOPAD", "A192CBC-NOPAD", "A256CBC-NOPAD"]
+  let kw := ["A128KW", "A192KW", "A256KW"]
+  if cbc.contains alg then some (Kit.Crypto.cbcEncrypt key nonce (Kit.Crypto.pkcs7Pad pt), [])
+  else if nopad.contains alg then some (Kit.Crypto.cbcEncrypt key nonce pt, [])
+  else if kw.contains alg then some (Kit.Crypto.kwWrap key pt, [])
+  else if alg = "A128CBC-HS256" then some (Kit.Crypto.cbcHmacSeal .sha256 key nonce pt ad)
+  else if alg = "A192CBC-HS384" then some (Kit.Crypto.cbcHmacSeal .sha384 key nonce pt ad)
+  else if alg = "A256CBC-HS512" then some (Kit.Crypto.cbcHmacSeal .sha512 key nonce pt ad)
+  else none
+
+def specDecrypt (alg : String) (key nonce ct tag ad : Bytes) : Option (Option Bytes) :=
+  let kw := ["A128KW", "A192KW", "A256KW"]
+  if kw.contains alg then some (Kit.Crypto.kwUnwrap key ct)
+  else if alg = "A128CBC-HS256" then some (Kit.Crypto.cbcHmacOpen .sha256 key nonce ct ad tag)
+  else if alg = "A192CBC-HS384" then some (Kit.Crypto.cbcHmacOpen .sha384 key nonce ct ad tag)
+  else if alg = "A256CBC-HS512" then some (Kit.Crypto.cbcHmacOpen .sha512 key nonce ct ad tag)
+  else none
+
+def answer (l : Line) : String :=
+  match l.op with
+  | "sym" =>
+    match l.get? "fn", l.get? "alg", (l.get? "kind").bind parseKind, hexOr l "key", hexOr l "nonce",
+          hexOr l "data", hexOr l "tag", hexOr l "ad" with
+    | some fn, some alg, some kind, some key, some nonce, some data, some tag, some ad =>
+      let k : Key := { kind := kind, raw := key }
+      if fn = "EncryptSymmetric" ∨ fn = "Encrypt" then
+        let r := if fn = "Encrypt" then encrypt realPrims data alg k nonce ad
+                 else encryptSymmetric realPrims data alg k nonce ad
+        let x := match r, specEncrypt alg key nonce data ad with
+          | .ok out, some sp => agree (out == sp)
+          | _, _ => "na"
+        render r (fun o => s!"ct={toHex o.1} tag={toHex o.2} x={x}")
+      else if fn = "DecryptSymmetric" ∨ fn = "Decrypt" then
+        let r := if fn = "Decrypt" then decrypt realPrims data alg k nonce tag ad
+                 else decryptSymmetric realPrims data alg k nonce tag ad
+        -- cross-check only where the spec function's domain (valid sizes, aligned body) applies
+        let x := match specDecrypt alg key nonce data tag ad with
+          | some sp =>
+            match r with
+            | .ok p => agree (sp == some p)
+            | .err e => if e == eAuth ∨ e == eKwIntegrity ∨ e == eKwSize ∨ e == ePkcs7 then agree (sp == none) else "na"
+            | .panic _ => "na"
+          | none => "na"
+        match r with
+        | .ok p => s!"ok pt={toHex p} x={x}"
+        | .err e => s!"err {clean e} x={x}"
+        | .panic w => s!"panic {clean w}"
+      else "bad fn"
+    | _, _, _, _, _, _, _, _ => "bad sym line"
+  | "asym" =>
+    match l.get? "fn", l.get? "alg", (l.get? "kind").bind parseKind with
+    | some fn, some alg, some kind =>
+      let r : Outcome Unit :=
+        if fn = "Encrypt" then
+          match encryptRoute alg with
+          | some "EncryptPublicKey" => asymOutcome "EncryptPublicKey" alg kind
+          | some _ => .err "routed:symmetric"
+          | none => .err eUnsupportedAlgorithm
+        else if fn = "Decrypt" then
+          match decryptRoute alg with
+          | some "DecryptPrivateKey" => asymOutcome "DecryptPrivateKey" alg kind
+          | some _ => .err "routed:symmetric"
+          | none => .err eUnsupportedAlgorithm
+        else asymOutcome fn alg kind
+      render r (fun _ => "")
+    | _, _, _ => "bad asym line"
+  | "kw" =>
+    match l.get? "dir", hexOr l "key", hexOr l "data" with
+    | some dir, some key, some data =>
+      let bc := realPrims.aes key
+      if dir = "wrap" then
+        let r := wrap bc data
+        let x := match r with
+          | .ok w => agree (w == Kit.Crypto.kwWrap key data)
+          | _ => agree (Kit.Crypto.kwWrap key data == [])
+        render r (fun o => s!"out={toHex o} x={x}")
+      else if dir = "unwrap" then
+        let r := unwrap bc data
+        let x := match r with
+          | .ok p => agree (Kit.Crypto.kwUnwrap key data == some p)
+          | _ => agree (Kit.Crypto.kwUnwrap key data == none)
+        match r with
+        | .ok p => s!"ok out={toHex p} x={x}"
+        | .err e => s!"err {clean e} x={x}"
+        | .panic w => s!"panic {clean w}"
+      else if dir = "unwrapprefix" then
+        render (unwrapPreFix bc data) (fun o => s!"out={toHex o}")
+      else "bad dir"
+    | _, _, _ => "bad kw line"
+  | "pad" =>
+    match l.get? "dir", l.nat? "size", hexOr l "data" with
+    | some dir, some size, some data =>
+      if dir = "pad" then render (pad data size) (fun o => s!"out={toHex o}")
+      else render (unpad data size) (fun o => s!"out={toHex o}")
+    | _, _, _ => "bad pad line"
+  | "cbchmac" =>
+    match l.get? "dir", l.get? "ctor", hexOr l "key", hexOr l "nonce", hexOr l "data", hexOr l "ad" with
+    | some dir, some ctor, some key, some nonce, some data, some ad =>
+      match Generated.C03.aescbcaeadParams.find? (·.ctor == ctor) with
+      | none => "err unknown_ctor"
+      | some p =>
+        if key.length ≠ p.encKeySize + p.macKeySize then "err key_size"
+        else if dir = "seal" then
+          render (cbcHmacSeal realPrims p key nonce data ad) (fun o => s!"out={toHex o}")
+        else render (cbcHmacOpen realPrims p key nonce data ad) (fun o => s!"out={toHex o}")
+    | _, _, _, _, _, _ => "bad cbchmac line"
+  | _ => "bad op"
+
 def main (_args : List String) : IO UInt32 := do
-  IO.eprintln "kitdrv: C03 has no model driver yet"
-  return 2
+  Kit.lineLoop (fun (_ : Unit) s => ((), answer (parseLine s))) ()
+  return 0
 end Driver.C03
